@@ -25,7 +25,7 @@ def run(ctx):
     ctx.rule('R-C08-1', 'T10 sibling agreement', 'dequeue_operation and the protocol-queue next-service-time function consult the same engine state and agree atom by atom (Some(id) <-> Some(now), None <-> None)')
     fa = prims.self_fields_read(F, dq, 2, PS)
     fb = prims.self_fields_read(F, tp, 2, PS)
-    ign = {'current_time', 'elapsed_time_ms'}
+    ign = {'current_time', 'elapsed_time_ms', 'current_operation'}   # current_operation: read by the service loop instead of dequeue (see mirror|current-operation)
     ctx.ob(fa - ign == fb - ign, 'both functions consult the same engine fields (only dequeue: %s; only next-time: %s)' % (sorted(fa - fb - ign), sorted(fb - fa - ign)), 'mirror|fields', loc=tp.loc())
     ctx.floor(len(fa), 9, 'engine fields consulted by dequeue_operation')
     # atom by atom
@@ -115,3 +115,44 @@ def run(ctx):
         rb = prims.field_read_blocks(v, t)
         qs = v.calls(callee)
         ctx.ob(bool(rb) and bool(qs) and all(any(v.dominates(b, c.bb) for b in rb) for c in qs), '%s compares `%s` with the clock before servicing the queue' % (sv, t), 'deadline-first|%s|%s' % (sv, t), loc=v.loc())
+
+    # ---- added after the mutation sweep: sufficiency of the mirror atoms and the write-pending flag
+    HPNE = r'^!VecDeque::is_empty\(self\.high_priority_operation_queue\)$'
+    NPW = r'^!self\.pending_write_completion$'
+    for v, nm in ((dq, 'dequeue'), (tp, 'next-time')):
+        ra = prims.rets_after(v, [NPW, HPNE])
+        ctx.ob(ra == {'Some'}, '%s: with no write pending a non-empty high-priority queue always yields Some (%s)' % (nm, sorted(ra or [])), 'mirror|high-priority-complete|' + nm, loc=v.loc(), rule='R-C08-1')
+        rn = prims.rets_after(v, [r'^self\.pending_write_completion$'])
+        ctx.ob(rn == {'None'}, '%s: a pending write completion always yields None (%s)' % (nm, sorted(rn or [])), 'mirror|pending-write-complete|' + nm, loc=v.loc(), rule='R-C08-1')
+    RNE, UNE = r'^!VecDeque::is_empty\(self\.resubmit_operation_queue\)$', r'^!VecDeque::is_empty\(self\.user_operation_queue\)$'
+    s1 = prims.reaches_ret(tp, [RNE], 'Some', avoid_patterns=[r'^!?VecDeque::is_empty\(self\.user_operation_queue\)$'])
+    s2 = prims.reaches_ret(tp, [r'^VecDeque::is_empty\(self\.resubmit_operation_queue\)$', UNE], 'Some')
+    ctx.ob(s1 is True and s2 is True, 'next-time: a non-empty resubmit queue alone, and a non-empty user queue alone, each suffice for "service me now" (%s, %s)' % (s1, s2), 'mirror|queues|either-suffices', loc=tp.loc(), rule='R-C08-1')
+    sq_ = ctx.fn('ProtocolState::service_queue')
+    fw = [(i, show(rve)) for (i, s_, pe, rve) in sq_.field_writes() if show(pe) == 'self.pending_write_completion']
+    GREW = r'^!\(Vec::len\(context\.to_socket\) == (to_socket_length|Vec::len\(context\.to_socket\))\)$'
+    ctx.ob(len(fw) == 1 and fw[0][1] == 'True' and guarded_any(sq_, fw[0][0], [GREW]), 'service_queue raises the write-pending flag when (and only when) the output buffer grew', 'flag|set', loc=sq_.loc(), rule='R-C08-2')
+    ge = prims.edge_nodes_matching(sq_, [GREW])
+    ctx.ob(bool(ge) and bool(fw) and all(not any(x in sq_.reach([e], avoid=[fw[0][0]]) for x in sq_.exits()) for e in ge), 'completeness: whenever the output grew the flag is raised before returning', 'flag|set-complete', loc=sq_.loc(), rule='R-C08-2')
+    wc = ctx.fn('ProtocolState::handle_network_event_write_completion')
+    eff = prims.must_field_effects(F, wc, targets=prims.ok_blocks(wc) + [b for b, e in prims.ret_variants(wc) if show(e) == 'result'] )
+    okb = [b for b, e in prims.ret_variants(wc) if not (e[0] == 'agg' and e[2] == 'Err')]
+    cl = [i for (i, s_, pe, rve) in wc.field_writes() if show(pe) == 'self.pending_write_completion' and show(rve) == 'False']
+    seen_ = wc.reach([0], avoid=cl) if cl else set(range(wc.n))
+    ctx.ob(len(cl) == 1 and bool(okb) and not any(b in seen_ for b in okb) and guarded_any(wc, cl[0], [r'^self\.pending_write_completion$']), 'a write completion lowers the write-pending flag on every non-error path, and is accepted only while the flag is up', 'flag|clear', loc=wc.loc(), rule='R-C08-2')
+    rnp = prims.rets_after(wc, [r'^!self\.pending_write_completion$'])
+    ctx.ob(rnp == {'Err'}, 'a write completion with no write pending is an error (%s)' % sorted(rnp or []), 'flag|unexpected', loc=wc.loc(), rule='R-C08-2')
+    # ---- added after seed C08-3b: the earliest deadline is the one reported - the ack-timeout heap is ordered by deadline
+    from .c18 import heap_order
+    heap_order(ctx, 'deadline|heap-order|', rule='R-C08-3')
+    pk_ = [c for v_ in (ctx.fn('ProtocolState::get_next_service_timepoint_connected'), ctx.fn('ProtocolState::get_next_service_timepoint_pending_disconnect')) for c in v_.calls('BinaryHeap::peek')]
+    ctx.ob(len(pk_) == 2 and all(show(c.arg(0)) == 'self.operation_ack_timeouts' for c in pk_), 'the next-service functions look at the top of that heap (the earliest deadline)', 'deadline|heap-peek', rule='R-C08-3')
+    # ---- defect 13 (found in round 3): a partially encoded current operation is work that is due as soon as no write is pending
+    rco = prims.rets_after(tp, [NPW, r'^self\.current_operation is Some$'])
+    ctx.ob(rco == {'Some'}, 'next-time: with no write pending, an operation that is only partially encoded always yields "service me now" (the service loop continues it without consulting the queues) (%s)' % sorted(rco or ['test not found']),
+           'mirror|current-operation', loc=tp.loc(), rule='R-C08-1')
+    sqa_ = ctx.fn('ProtocolState::service_queue_aux')
+    enc_ = sqa_.calls('Encoder::encode')
+    dq_ = sqa_.calls('ProtocolState::dequeue_operation')
+    ctx.ob(len(enc_) == 1 and len(dq_) == 1 and guarded_any(sqa_, dq_[0].bb, [r'^self\.current_operation is None$']) and not guarded_any(sqa_, enc_[0].bb, [r'^self\.current_operation is None$']),
+           'service loop: a current operation is continued without dequeuing (so the queues alone do not describe the pending work)', 'mirror|current-operation|continued', loc=sqa_.loc(), rule='R-C08-1')
